@@ -1,5 +1,12 @@
 """Per-property configuration consumed by ./check.
-models/proofs: (directory, file stem) of the Coq files the property depends on, in build order.
+Each property has its own file lib/props/Cxx.py defining CFG = dict(...) with the keys:
+  models, proofs : lists of (directory, file stem) of the Coq files the property depends on (build targets)
+  extract, module, driver : coq/extract/<extract>.v produces <module>.ml; ocaml/<driver> is the OCaml driver
+  ocaml_extra   : optional list of files under ocaml/ prepended to the driver after helpers.ml (e.g. "astio.ml")
+  trusted_base, assumptions : lists of strings (COMMON_TB is prepended to trusted_base)
+  level_text, level_note, technique : MANIFEST texts
+  level         : evidence level (default "proof")
+  disabled      : True while the check is under construction (not registered)
 """
 COMMON_TB = [
     "Coq 8.16.1 kernel + coqc (full .vo build); vm_compute used for computed side conditions and witnesses; no native_compute",
@@ -11,16 +18,18 @@ COMMON_TB = [
 
 PROPS = {}
 
-PROPS["C20"] = dict(
-    models=[("model", "Trie")],
-    proofs=[("proofs", "Trie_proofs")],
-    extract="Extract_Trie", module="trie_model", driver="drv_C20.ml",
-    trusted_base=COMMON_TB + ["Go: byte indexing of strings, append, string([]byte); fortio.org/terminal.Terminal{Out} as a plain writer"],
-    level_text="Proved in Coq for every insertion sequence and every query (no bound on sizes): C20_membership (Contains holds exactly for the inserted non-empty words), C20_prefix_query (PrefixAll returns exactly the inserted words starting with the prefix, strictly increasing in byte order, and the reported length is that of their longest common prefix), C20_completion (the completed line extends the typed text and is a prefix of every candidate). The theorems are about coq/model/Trie.v (faithful to trie.go incl. the shared end marker and the min..max scan); the model is tied to /repo by running the extracted model and the real trie + completion callback on every insertion order of small word sets (exhaustive) and random longer words, and a Go map+sort oracle runs beside it.",
-    level_note="Trusted: Coq kernel, extraction (ExtrOcamlBasic), OCaml driver, Go harness, translator; axioms: none (Print Assumptions: closed). The Go trie itself is modelled, not verified; terminal IO of the completion callback is outside the model.",
-    assumptions=["the trie is only reached through Insert/Contains/Prefix/PrefixAll/All/AllBytes (children/min/max/valid unexported)",
-                 "children array modelled as an association list with array-store semantics; the for-loop over min..max as a list of byte values"],
-)
+import glob, importlib.util, os
+_here = os.path.dirname(os.path.abspath(__file__))
+for _f in sorted(glob.glob(os.path.join(_here, "props", "C*.py"))):
+    _pid = os.path.basename(_f)[:-3]
+    _spec = importlib.util.spec_from_file_location("propcfg_" + _pid, _f)
+    _m = importlib.util.module_from_spec(_spec)
+    _spec.loader.exec_module(_m)
+    _c = dict(_m.CFG)
+    if _c.get("disabled"):
+        continue
+    _c["trusted_base"] = COMMON_TB + list(_c.get("trusted_base", []))
+    PROPS[_pid] = _c
 
 # properties not (yet) claimed: reason shown under not_applicable in MANIFEST.json
 PENDING = {}
